@@ -8,7 +8,7 @@ PID = "C10"
 QUICK = [
     ("rebind", {"Fam": "<- FamRebind", "LitPool": "<- Lits2", "Names": "<- Names2", "BinOps": "<- Ops1", "MaxN": "2",
                 "MaxStk": "2", "MaxStmts": "2"}, None),
-    ("rebind3", {"Fam": "<- FamRebind", "LitPool": "<- Lits1", "Names": "<- Names2", "BinOps": "<- Ops1", "MaxN": "1",
+    ("rebind3", {"Fam": "<- FamRebind3", "LitPool": "<- Lits1", "Names": "<- Names2", "BinOps": "<- Ops1", "MaxN": "1",
                  "MaxStk": "1", "MaxStmts": "3"}, None),
     ("conlet", dict([f for f in c01.QUICK if f[0] == "conlet"][0][1]), None),    # annotated lets bind once as well
     ("scopemod", {"Fam": "<- FamScopeMod", "LitPool": "<- Lits2", "Names": "<- Names3", "BinOps": "<- Ops2",
